@@ -620,6 +620,11 @@ fn enc_case<B: Backend>(c: &EncCase, acc: &mut Acc) -> R {
     }
 }
 
+pub fn enc_strategy<B: Backend>() -> impl Strategy<Value = EncCase> {
+    (any::<bool>(), gens::key_seed(), gens::small_payload(), gens::footer(), gens::assertion(B::VER.has_assertion()), any::<bool>())
+        .prop_map(|(public, key, msg, footer, assertion, from_suffixed)| EncCase { public, key, msg, footer, assertion, from_suffixed })
+}
+
 fn enc_subs_for<B: Backend>(out: &mut Vec<SubCheck>) {
     let cases = match B::NAME {
         "paseto-v1" => (40, 400),
